@@ -468,3 +468,6 @@ def check_close(rep, fx):
             'new stash = old stash without its last element (LIFO)' if okd else 'close does not store stash.drop_last()', f.name,
             sets['stash'][1].get('at'))
     _after_first_write(rep, fx, f, 'C06.R4:close')
+
+# as-built addendum
+EXPLANATION += ' As built (DESIGN 9.2): As built the cursor counts bits of the value: the move is bounded by input.len(), open starts at the constant 0, size/position arguments are converted without wrapping, and a read advances the current offset by len() of the peeked slice with an overflow check (peek wrappers are looked through).'
